@@ -73,7 +73,7 @@ class C14(Machine):
             "pristine one-shot of the concatenation, bit counter checked after every non-final piece. distinct = distinct "
             "abstract traces (client, hash kind, piece class sequence, noise ops, faults); non-trivial = a judged stream with "
             ">=1 non-final piece or another client's step interleaved between its pieces")
-    assumptions = ["faults are injected only on objects other than the stream's own (nothing is promised for a stream after a failed update)"]
+    assumptions = ["during a stream faults are injected only on objects other than the stream's own (nothing is promised for a stream after a failed update); before initstate() the stream's own object may have seen a rejected or interrupted one-shot call"]
 
     def _stream(self, rng, pb, c, name, recipe, bb, w, streams, enum=None, obj=None, warm=False):
         o = pb.obj(dict(recipe)) if obj is None else obj
@@ -95,8 +95,18 @@ class C14(Machine):
             cuts = sorted(rng.randint(0, n) * bb for _ in range(k))
         M = rbytes(rng, total) if rng.random() < 0.8 else bytes(total)
         if warm:
-            pb.step(c, k="call", obj=o, name="__call__", args=[B(rbytes(rng, rng.choice([0, 3, bb + 1])))], kw={},
-                    tag="warm_oneshot", kind=name, role="noise")
+            # history on the stream's own object BEFORE initstate(): a one-shot call, possibly
+            # rejected (bit length beyond the data) or interrupted - initstate() must start afresh
+            wm = rbytes(rng, rng.choice([0, 3, bb - 4, bb, bb + 1, 2 * bb + 5]))
+            v = rng.random()
+            if v < 0.2 and name not in ("Blake2s", "Blake2b"):
+                pb.step(c, k="call", obj=o, name="__call__", args=[B(wm)], kw={"bitlen": 8 * len(wm) + 5},
+                        tag="warm_rejected", kind=name, role="noise", cls="bad")
+            else:
+                wid = pb.step(c, k="call", obj=o, name="__call__", args=[B(wm)], kw={},
+                              tag="warm_oneshot", kind=name, role="noise")
+                if v < 0.5:
+                    pb.plan["meta"].setdefault("warm_faults", []).append(wid)
         ini = pb.step(c, k="call", obj=o, name="initstate", args=[], kw={}, tag="init", kind=name, role="init")
         pos = 0
         st = {"obj": o, "kind": name, "pieces": [], "upd": [], "fin": None, "recipe": recipe, "c": c, "init": ini}
@@ -189,6 +199,10 @@ class C14(Machine):
                      and s.get("cls") != "bad"]
             for s in rng.sample(cands, min(len(cands), rng.choice([0, 1, 1, 2]))):
                 s["fault"] = {"kind": "interrupt", "u": rng.random()}
+        for s in plan["steps"]:
+            if s["id"] in plan["meta"].get("warm_faults", []):
+                s["fault"] = {"kind": "interrupt", "u": rng.random()}
+                s["tag"] = "warm_interrupted"
         plan["meta"]["streams"] = streams
         plan["fp"] = sorted(stream_objs)
         return plan
@@ -263,6 +277,9 @@ class C14(Machine):
                     probe("interleaved_sibling_stream_same_class")
                 if any(by_id[t["id"]].get("flt", {}).get("fired") or (t.get("cls") == "bad") for t in inter):
                     probe("faulted_noise_between_pieces")
+            pre = [t for t in plan["steps"][:lo] if t.get("obj") == st["obj"]]
+            if pre and pre[-1].get("role") == "init" and len(pre) >= 2 and pre[-2].get("tag") in ("warm_interrupted", "warm_rejected"):
+                probe("stream_started_after_failed_oneshot_on_same_object")
             if len(pieces) > 1 or inter:
                 nontrivial = True
             if len(pieces) >= 3:
